@@ -149,6 +149,8 @@ cfg("MC_sub_frag.cfg", sub_consts(MaxEvents="= 2", MaxSel="= 3", Aliases='= {""}
 # ---- simulation configs: large documents for the R3 drivers ---------------------------------
 cfg("MC_exec_sim.cfg", exec_consts(FieldAlpha="<- AlphaAll", Aliases='= {"", "z"}', Conds='= {"", "T", "P", "A", "B", "C", "U", "Query"}', DirOpts="<- DirsBoth",
     ArgOpts="<- ArgOptsStd", MaxSel="= 10", MaxDepth="= 4", MaxFrags="= 2", MaxOps="= 2", OpTypes='= {"query", "mutation"}', MaxOverlay="= 0"), EXEC_INV)
+cfg("MC_exec_simd.cfg", exec_consts(FieldAlpha="<- AlphaSimF", Aliases='= {""}', Conds='= {"T", "Query"}', DirOpts="<- DirsBoth",
+    MaxSel="= 7", MaxDepth="= 3", MaxFrags="= 2", MaxOps="= 1", MaxOverlay="= 0"), EXEC_INV)
 cfg("MC_exec_sim3.cfg", exec_consts(FieldAlpha="<- AlphaAll", Aliases='= {"", "z"}', Conds='= {"", "T", "P", "A", "B", "C", "U"}', DirOpts="<- NoDirs",
     ArgOpts="<- ArgOptsStd", MaxSel="= 12", MaxDepth="= 4", MaxFrags="= 1", MaxOps="= 1", OpTypes='= {"query", "mutation"}', MaxOverlay="= 0"), EXEC_INV)
 
